@@ -65,6 +65,7 @@ type World struct {
 	nanos     int
 	out       *bufio.Writer
 	noGhost   bool
+	gaugeBaseByKey map[string]float64
 	gaugeBase float64
 	// events as executed (for replay files); RLog is the replayable form (clock-derived ping ids as @k references)
 	Log  []string
@@ -86,6 +87,7 @@ func NewWorld(cfg Config, key *ecdsa.PrivateKey, out *bufio.Writer) *World {
 	}
 	w.canon = wire.NewCanon(func(s string) (uint32, bool) { v, ok := rev[s]; return v, ok })
 	w.gaugeBase = sessionGauge()
+	w.gaugeBaseByKey = models.VerifSessionGaugeByKey()
 	w.know = newKnowledge()
 	return w
 }
@@ -173,6 +175,31 @@ func (w *World) state() {
 	strs := make([]string, len(nums))
 	for i, n := range nums {
 		strs[i] = fmt.Sprint(n)
+	}
+	// per application: the gauge of each app key counts the registered sessions created under it
+	want := map[string]int{}
+	for _, g := range ids {
+		if sess, ok := w.store.GetByGlobalID(g); ok {
+			want[sess.AppKey]++
+		}
+	}
+	got := models.VerifSessionGaugeByKey()
+	var off []string
+	keys := map[string]bool{}
+	for k := range want {
+		keys[k] = true
+	}
+	for k := range got {
+		keys[k] = true
+	}
+	for k := range keys {
+		if have := int(got[k] - w.gaugeBaseByKey[k]); have != want[k] {
+			off = append(off, fmt.Sprintf("%q:gauge=%d,sessions=%d", k, have, want[k]))
+		}
+	}
+	if len(off) > 0 {
+		sort.Strings(off)
+		w.emit("X gaugekeys %s", strings.Join(off, ";"))
 	}
 	w.emit("S [%d %s g=%d", len(nums), strings.Join(strs, " "), int(sessionGauge()-w.gaugeBase))
 	w.ghost(ids)
@@ -264,6 +291,8 @@ func (w *World) Connect(c int) {
 	w.logEvent(fmt.Sprintf("connect %d", c))
 	if _, ok := w.conns[c]; !ok {
 		rh := w.newHandler()
+		// the clients come from different applications (the session gauge is kept per application)
+		rh.VerifSetAppKey([]string{"", "app-a", "app-b"}[c%3])
 		w.conns[c] = &connState{v: hws.NewVerifConn(rh, fmt.Sprintf("client-%d", c)), rh: rh, alive: true}
 		w.order = append(w.order, c)
 	}
